@@ -1238,7 +1238,17 @@ bool XMLReader::skippedStringLong(const XMLCh* toSkip)
 
         XMLSize_t tmp = charsLeftInBuffer();
         if (tmp == charsLeft) // if the refreshCharBuf() did not add anything
-          return false;       // new give up and return.
+        {
+          // Nothing at all to compare with: give up and return.
+          if (charsLeft == 0)
+            return false;
+
+          // Otherwise compare what is there. No progress does not mean
+          // end of input: with a single free slot in the character
+          // buffer a surrogate pair cannot be transcoded until some of
+          // the buffered characters have been consumed.
+          break;
+        }
 
         charsLeft = tmp;
       }
@@ -1953,7 +1963,16 @@ XMLReader::xcodeMoreChars(          XMLCh* const            bufToFill
             // sequence in the encoding, not the end of the entity.
             //
             if (needMode && (bytesLeft == fRawBytesAvail - fRawBufIndex))
+            {
+                // ... unless the transcoder stopped for lack of room, not
+                // for lack of input: a supplementary character needs two
+                // slots (a surrogate pair), so with room for one character
+                // it is left for the next call. Nothing could be done now.
+                if (maxChars < 2)
+                    return 0;
+
                 ThrowXMLwithMemMgr(TranscodingException, XMLExcepts::Trans_BadSrcSeq, fMemoryManager);
+            }
         }
 
         // Ask the transcoder to internalize another batch of chars. It is
